@@ -335,7 +335,8 @@ func runAL(c ALCase) core.Result {
 					lab["own-loopback"] = true
 					continue
 				}
-				if c.ClientIP != 0 && a.IP == c.ClientIP {
+				// own listening address: the client's IP (as learned from peers) together with its listening port
+				if c.ClientIP != 0 && a.IP == c.ClientIP && a.Port == c.ListenPort {
 					lab["own-ip"] = true
 					continue
 				}
@@ -447,7 +448,7 @@ func runAL(c ALCase) core.Result {
 				if !found {
 					return core.Failf("op %d: popped %s:%d which was never pushed, was filtered, evicted, or already popped", oi, ipString(ip), addr.Port)
 				}
-				if a := got; a.Port == 0 || blocked(a.IP) || (c.ClientIP != 0 && a.IP == c.ClientIP) {
+				if a := got; a.Port == 0 || blocked(a.IP) || (c.ClientIP != 0 && a.IP == c.ClientIP && a.Port == c.ListenPort) {
 					return core.Failf("op %d: popped a filtered address %s:%d", oi, ipString(ip), addr.Port)
 				}
 			}
